@@ -41,3 +41,12 @@ def cmpU64 (a b : BitVec 64) : Int := if a < b then -1 else if b < a then 1 else
 /-- `cmp.Compare(a, b)` on `int` / `int64` -/
 def cmpInt (a b : Int) : Int := if a < b then -1 else if b < a then 1 else 0
 end Sema.Go
+
+namespace Sema.Go
+/-- `copy(dst[lo:hi], src)`: the first `min (len dst[lo:hi]) (len src)` items of the window are overwritten by the first
+items of `src`, everything else of `dst` stays (a window reaching past the end panics in Go; here it is cut at the end) -/
+def copyInto {α : Type} (dst : List α) (lo hi : Int) (src : List α) : List α :=
+  let l := lo.toNat
+  let n := min ((min hi.toNat dst.length) - l) src.length
+  dst.take l ++ src.take n ++ dst.drop (l + n)
+end Sema.Go
